@@ -58,7 +58,10 @@ pub fn all_subs(pid: &'static str, protos: &[Proto]) -> Vec<RoundTrip> {
   let mut v = vec![];
   for &proto in protos {
     for layer in Layer::ALL {
-      for kind in ["sweep", "random"] {
+      for kind in ["sweep", "random", "dense"] {
+        if kind == "dense" && layer == Layer::Prelude {
+          continue;
+        }
         v.push(RoundTrip { pid, proto, layer, kind });
       }
     }
@@ -76,6 +79,10 @@ pub fn run_rt<'a>(ctx: &'a Ctx, subs: &'a [RoundTrip], per_unit_quick: u32, per_
     if s.kind == "sweep" {
       let max = if s.proto.cost() > 4 { ctx.n(sweep_max_quick.min(100_000), sweep_max_thorough) } else { ctx.n(sweep_max_quick, sweep_max_thorough) };
       jobs.push(Box::new(move || ctx.enumerate(s, boundary_sweep(s.proto, s.layer, max).into_iter(), true)));
+    } else if s.kind == "dense" {
+      // every message length up to a few blocks of every primitive involved
+      let max = match s.proto.cost() { 40 => ctx.n(200, 1100), 8 => ctx.n(300, 1100), _ => ctx.n(1100, 4200) };
+      jobs.push(Box::new(move || ctx.enumerate(s, dense_sweep(s.proto, s.layer, max).into_iter(), true)));
     } else {
       let n = (ctx.n(per_unit_quick, per_unit_thorough) / s.proto.cost()).max(20);
       jobs.push(Box::new(move || ctx.prop(s, rt_case(s.proto, s.layer), n)));
